@@ -150,3 +150,23 @@ theorem writeAll_covers_every_write (d : Bytes) (ws : List (Nat × Bytes)) (x : 
     | inr h => exact ih _ h
 
 end Absnfs.Fs
+
+namespace Absnfs.Fs
+
+/-- a WRITE that ends at or below the new size commutes with the SETATTR(size): either order leaves the same bytes -/
+theorem truncBytes_writeBytes_comm (d : Bytes) (o : Nat) (w : Bytes) (n : Nat) (hw : w ≠ []) (h : o + w.length ≤ n) :
+    truncBytes (writeBytes d o w) n = writeBytes (truncBytes d n) o w := by
+  apply bytes_ext_getD
+  · rw [truncBytes_length, writeBytes_length _ _ _ hw, truncBytes_length]; omega
+  · intro i hi
+    rw [truncBytes_length] at hi
+    rw [truncBytes_getD, writeBytes_getD _ _ _ _ hw, writeBytes_getD _ _ _ _ hw, truncBytes_getD]
+    simp only [hi, if_true]
+
+/-- a WRITE that starts at or beyond the new size does not commute with it: the order is visible in the length,
+    which is why the oracle only accepts outcomes of serial orders and does not expect a single one here -/
+theorem trunc_then_write_differs (d : Bytes) (o : Nat) (w : Bytes) (n : Nat) (hw : w ≠ []) (h : n < o + w.length) :
+    (truncBytes (writeBytes d o w) n).length ≠ (writeBytes (truncBytes d n) o w).length := by
+  rw [truncBytes_length, writeBytes_length _ _ _ hw, truncBytes_length]; omega
+
+end Absnfs.Fs
